@@ -364,6 +364,7 @@ fn ends_with_suffix(e: &E) -> bool {
         E::Suf(..) | E::SuffixApply(..) => true,
         E::Pre(_, x) | E::PrefixApply(_, x) => ends_with_suffix(x),
         E::Bin(_, _, r) | E::InfixApply(_, _, r) => ends_with_suffix(r),
+        E::SideBefore(_, v) => ends_with_suffix(v),
         _ => false,
     }
 }
